@@ -33,7 +33,7 @@ GLOBAL = '_global_state'
 
 def run(ctx):
     for fn in (r1_overlay_lifetime, r2_inline_never_persistent, r3_overlay_read_before_write, r4_lookup_order,
-               r5_run_loop, r6_comments_only, r7_defaults_path):
+               r5_run_loop, r6_comments_only, r7_defaults_path, r8_break_placement):
         ctx.rep.rule(fn, ctx)
 
 
@@ -580,6 +580,117 @@ def r7_defaults_path(ctx):
 
 
 # ---------------------------------------------------------------------------
+CHUNK = 'xdoctest.parser.DoctestParser._package_chunk'
+
+
+def r8_break_placement(ctx):
+    """a statement that carries a directive starts a part; an inline one also ends it (together with the
+    tiling invariant C01.R6 this scopes a block directive to everything after it and an inline one to its statement)"""
+    rep = ctx.rep
+    f = ctx.func(CHUNK)
+    g = ctx.cfg(f)
+    rd = ctx.rd(f)
+    EXTRACT = 'xdoctest.directive.Directive.extract'
+    ext = [(n, c) for n in g.nodes if not n.dup for c in node_calls(n) if ctx.res.resolve_call(f, c)[0] == 'repo' and ctx.res.resolve_call(f, c)[1][0].qualname == EXTRACT]
+    need(len(ext) == 1, 'C04.R8: Directive.extract call not found in _package_chunk')
+    en, ec = ext[0]
+    loops = [fr for fr in en.frames if fr.kind == 'loop']
+    need(loops, 'C04.R8: directives are not extracted per statement')
+    head = loops[-1].head
+    it = head.ast.iter
+    tg = head.ast.target
+    need(isinstance(tg, ast.Tuple) and len(tg.elts) == 2 and all(isinstance(e, ast.Name) for e in tg.elts), 'C04.R8: unrecognised loop target')
+    s1, s2 = tg.elts[0].id, tg.elts[1].id
+    # (a) consecutive statement starts including the open end of the last statement
+    ok = isinstance(it, ast.Call) and is_name(it.func, 'zip') and len(it.args) == 2 and isinstance(it.args[0], ast.Name)
+    if ok:
+        P = it.args[0].id
+        second = it.args[1]
+        ok = isinstance(second, ast.BinOp) and isinstance(second.op, ast.Add) and isinstance(second.left, ast.Subscript) and is_name(second.left.value, P) and \
+            isinstance(second.left.slice, ast.Slice) and isinstance(second.left.slice.lower, ast.Constant) and second.left.slice.lower.value == 1 and \
+            isinstance(second.right, ast.List) and len(second.right.elts) == 1 and isinstance(second.right.elts[0], ast.Constant) and second.right.elts[0].value is None
+        if ok:
+            pd = rd.at(head, P)
+            ok = bool(pd) and all(isinstance(d.base, ast.Call) and ctx.res.resolve_call(f, d.base)[0] == 'repo' and ctx.res.resolve_call(f, d.base)[1][0].name == '_locate_ps1_linenos' for d in pd)
+    rep.ob('C04.R8', ctx.loc(f, head.ast), ctx.src(it), ok,
+           'every statement (start, next start | None) of the chunk is inspected, the last one included' if ok else
+           'the directive scan does not visit every statement interval of the chunk', anchor=CHUNK)
+    # (b) the text scanned is the statement's own lines
+    arg = ec.args[0] if ec.args else None
+    ok = False
+    if arg is not None:
+        names = [x for x in ast.walk(arg) if isinstance(x, ast.Name) and isinstance(x.ctx, ast.Load)]
+        for nm in names:
+            for d in rd.at(en, nm.id):
+                v = d.value
+                if isinstance(v, ast.Subscript) and isinstance(v.slice, ast.Slice) and is_name(v.slice.lower, s1) and is_name(v.slice.upper, s2):
+                    ok = True
+        if isinstance(arg, ast.Call):
+            for x in ast.walk(arg):
+                if isinstance(x, ast.Subscript) and isinstance(x.slice, ast.Slice) and is_name(x.slice.lower, s1) and is_name(x.slice.upper, s2):
+                    ok = True
+    rep.ob('C04.R8', ctx.loc(f, ec), ctx.src(ec), ok, 'directives are read from the lines [%s:%s] of that statement only' % (s1, s2) if ok else 'directives are not extracted from exactly the lines of one statement', anchor=CHUNK)
+    # result variable
+    dvar = en.ast.targets[0].id if isinstance(en.ast, ast.Assign) and isinstance(en.ast.targets[0], ast.Name) else None
+    need(dvar, 'C04.R8: extracted directives are not bound to a local')
+    entry, cut = graph.region_of_loop(g, head)
+    dom = ctx.dom(g, entry, cut)
+    apps = []
+    for n in g.nodes:
+        if n.dup or not graph.in_loop_body(n, head.ast):
+            continue
+        for c in node_calls(n):
+            if isinstance(c.func, ast.Attribute) and c.func.attr == 'append' and isinstance(c.func.value, ast.Name) and c.args and isinstance(c.args[0], ast.Name) and c.args[0].id in (s1, s2):
+                apps.append((n, c))
+    breakvars = {c.func.value.id for (_, c) in apps}
+    before = [(n, c) for (n, c) in apps if c.args[0].id == s1]
+    after = [(n, c) for (n, c) in apps if c.args[0].id == s2]
+    rep.ob('C04.R8', ctx.loc(f, head.ast), 'break before a statement with directives', len(before) == 1, '%d append(s) of %s' % (len(before), s1),
+           nontrivial=False, anchor=CHUNK)
+    rep.ob('C04.R8', ctx.loc(f, head.ast), 'break after a statement with an inline directive', len(after) == 1, '%d append(s) of %s' % (len(after), s2),
+           nontrivial=False, anchor=CHUNK)
+
+    def canon(fa):
+        e = fa.expr
+        if is_name(e, dvar):
+            return ('has-directives', fa.polarity)
+        if isinstance(e, ast.Attribute) and e.attr == 'inline' and isinstance(e.value, ast.Subscript) and is_name(e.value.value, dvar):
+            return ('inline', fa.polarity)
+        if isinstance(e, ast.Compare) and len(e.ops) == 1 and isinstance(e.ops[0], ast.Is) and is_name(e.left, s2) and isinstance(e.comparators[0], ast.Constant) and e.comparators[0].value is None:
+            return ('last-statement', fa.polarity)
+        if fa.polarity in ('iter', 'done'):
+            return None
+        return ('other:' + fa.text, fa.polarity)
+    for (n, c) in before:
+        got = {canon(fa) for fa in graph.guard_facts(dom, n)} - {None}
+        ok = got == {('has-directives', True)}
+        rep.ob('C04.R8', ctx.loc(f, c), ctx.src(c), ok,
+               'a part break is placed before every statement that carries a directive, and only there' if ok else
+               'the break before a directive statement is controlled by %s (required: exactly "statement has directives")' % sorted(map(str, got)), anchor=CHUNK)
+    for (n, c) in after:
+        got = {canon(fa) for fa in graph.guard_facts(dom, n)} - {None}
+        ok = got == {('has-directives', True), ('inline', True), ('last-statement', False)}
+        rep.ob('C04.R8', ctx.loc(f, c), ctx.src(c), ok,
+               'a second break is placed after a statement whose directive is inline (unless it is the last statement)' if ok else
+               'the break after an inline directive is controlled by %s (required: has directives, inline, not the last statement)' % sorted(map(str, got)), anchor=CHUNK)
+    # the break list feeds the tiling loop
+    if len(breakvars) == 1:
+        bv = next(iter(breakvars))
+        used = any(isinstance(x, ast.Call) and is_name(x.func, 'sorted') and any(is_name(y, bv) for y in ast.walk(x)) for x in ast.walk(f.node))
+        rep.ob('C04.R8', ctx.loc(f, head.ast), 'breaks collected in `%s` drive the slices' % bv, used, 'the collected breaks are the tile boundaries (see C01.R6)' if used else 'the collected breaks are not used for slicing', nontrivial=False, anchor=CHUNK)
+    # (e) directives attached to the part that starts at s1
+    stores = [n for n in g.nodes if not n.dup and n.kind == 'stmt' and isinstance(n.ast, ast.Assign) and any(isinstance(t, ast.Subscript) and is_name(t.slice, s1) for t in n.ast.targets) and is_name(n.ast.value, dvar)]
+    slicer = f.nested.get('slice_example')
+    reads = []
+    if slicer is not None:
+        sp0 = slicer.node.args.args[0].arg
+        reads = [c for c in ast.walk(slicer.node) if isinstance(c, ast.Call) and isinstance(c.func, ast.Attribute) and c.func.attr == 'get' and c.args and is_name(c.args[0], sp0)]
+    ok = len(stores) == 1 and len(reads) == 1 and isinstance(stores[0].ast.targets[0].value, ast.Name) and is_name(reads[0].func.value, stores[0].ast.targets[0].value.id)
+    rep.ob('C04.R8', ctx.loc(f, stores[0].ast if stores else f.node), 'directives keyed by the start line of their part', ok,
+           'the part that starts at the directive statement receives its directives' if ok else 'directives are not attached to the part that starts at their statement', anchor=CHUNK)
+
+
+# ---------------------------------------------------------------------------
 from ..selftest import fire, silent      # noqa: E402
 
 DE = 'xdoctest/doctest_example.py'
@@ -623,6 +734,11 @@ VARIANTS = [
     silent('overlay-seed-with-setdefault',
            (DI, "                    if key not in state:\n                        # inline directives work on a copy of the persistent set\n                        state[key] = set(self._global_state[key])\n                    state[key].add(value)\n",
                 "                    if key not in state:\n                        state[key] = self._global_state[key].copy()\n                    state[key].add(value)\n")),
+    fire('no-break-after-inline-directive', 'C04.R8', ('xdoctest/parser.py', "                if directives[0].inline:\n                    if s2 is not None:\n                        break_linenos.append(s2)\n", "")),
+    fire('break-after-every-directive', 'C04.R8', ('xdoctest/parser.py', "                if directives[0].inline:\n                    if s2 is not None:\n", "                if True:\n                    if s2 is not None:\n")),
+    fire('last-statement-not-scanned', 'C04.R8', ('xdoctest/parser.py', "        for s1, s2 in zip(ps1_linenos, ps1_linenos[1:] + [None]):\n", "        for s1, s2 in zip(ps1_linenos, ps1_linenos[1:]):\n")),
+    fire('directives-keyed-by-next-start', 'C04.R8', ('xdoctest/parser.py', "                ps1_to_directive[s1] = directives\n", "                ps1_to_directive[s2] = directives\n")),
+    fire('break-only-for-block-directives', 'C04.R8', ('xdoctest/parser.py', "                ps1_to_directive[s1] = directives\n                break_linenos.append(s1)\n", "                ps1_to_directive[s1] = directives\n                if not directives[0].inline:\n                    break_linenos.append(s1)\n")),
     silent('overlay-reset-by-new-dict', (DI, "        self._inline_state.clear()\n", "        self._inline_state = {}\n")),
     silent('state-selected-by-ifexp-kept-as-if',
            (DI, "                if directive.inline:\n                    state = self._inline_state\n                else:\n                    state = self._global_state\n",
